@@ -403,7 +403,11 @@ class Client(tyming.Tymee):
         Service receives until no more
         """
         while self.connected and not self.cutoff:
-            data = self.receive()
+            try:
+                data = self.receive()
+            except BrokenPipeError:  # EPIPE so far side gone, .receive still raises
+                self.cutoff = True
+                break
             if not data:
                 break
             self.rxbs.extend(data)
@@ -414,7 +418,11 @@ class Client(tyming.Tymee):
         Retrieve from server only one reception
         '''
         if self.connected and not self.cutoff:
-            data = self.receive()
+            try:
+                data = self.receive()
+            except BrokenPipeError:  # EPIPE so far side gone, .receive still raises
+                self.cutoff = True
+                data = None
             if data:
                 self.rxbs.extend(data)
 
@@ -477,7 +485,11 @@ class Client(tyming.Tymee):
         Attempt to send all of .txbs. Delete what is actually sent.
         """
         while self.txbs and self.connected and not self.cutoff:
-            count = self.send(self.txbs)
+            try:
+                count = self.send(self.txbs)
+            except BrokenPipeError:  # EPIPE so far side gone, .send still raises
+                self.cutoff = True
+                break
             del self.txbs[:count]
             break  # try again later
 
